@@ -173,8 +173,11 @@ def ap_event(tid, results, g, prm, *, with_lists=True):
         gl.append(rr.ground_truth_object.semantic_label.label.value if rr.ground_truth_object is not None else "none")
         ya4.append(int(round(rr.estimated_object.state.orientation.yaw_pitch_roll[0] * 1e4)) % 62832)
         yb4.append(int(round(rr.ground_truth_object.state.orientation.yaw_pitch_roll[0] * 1e4)) % 62832 if rr.ground_truth_object is not None else 0)
-    ap = Ap(TPMetricsAp(), [list(results)], g, [AW["car"]], MODES[mode], [prm["thr"]])
-    aph = Ap(TPMetricsAph(), [list(results)], g, [AW["car"]], MODES[mode], [prm["thr"]])
+    # the bucket arrives as per-frame lists (1-3 frames, results dealt round-robin): the ranking is over the whole bucket
+    nfr = 1 + len(results) % 3
+    nested = [list(results[i::nfr]) for i in range(nfr)]
+    ap = Ap(TPMetricsAp(), [list(x) for x in nested], g, [AW["car"]], MODES[mode], [prm["thr"]])
+    aph = Ap(TPMetricsAph(), [list(x) for x in nested], g, [AW["car"]], MODES[mode], [prm["thr"]])
     n = len(ranked)
     tp = [int(round(v)) for v in ap.tp_list] if n else []
     fp = [int(round(v)) for v in ap.fp_list] if n else []
